@@ -1,6 +1,8 @@
 import ExprModel.Drv.Arith
 import ExprModel.Drv.Code
+import ExprModel.Drv.Determinism
 import ExprModel.Drv.Lex
+import ExprModel.Drv.Parse
 import ExprModel.Drv.Source
 import ExprModel.Drv.Spec
 import ExprModel.Drv.SrcDefects
@@ -16,6 +18,7 @@ open ExprModel
 
 def handlers : List (String × (List Sexp → Sexp)) :=
   Drv.arithHandlers ++
+  Drv.parseHandlers ++
   Drv.codeHandlers ++
   Drv.specHandlers ++
   Drv.wfHandlers ++
@@ -23,7 +26,8 @@ def handlers : List (String × (List Sexp → Sexp)) :=
   Drv.lexHandlers ++
   Drv.walkHandlers ++
   Drv.typesHandlers ++
-  Drv.srcDefectsHandlers
+  Drv.srcDefectsHandlers ++
+  Drv.determinismHandlers
 
 def dispatch (req : Sexp) : Sexp :=
   match req with
